@@ -951,4 +951,110 @@ func checkC19(c *Check) {
 		})
 	}
 	c.Hold("R6", "pool:users", token.NoPos, okUsers && n == 2, "the pool is used from unexpected places (a connection could be shared by two deliveries)")
+
+	// ---- R7 the user side: what Get returned is used only when there is something, and a connection that was taken
+	// or opened is owned by somebody on every path
+	c.Rule("R7", "connectionForDomain: the value the pool returned is asserted / used only when it is non-nil; a connection taken from the pool or newly opened is, on every path, either recorded in the delivery's table (whose Close returns or closes it) or closed", 2)
+	if r := c.need("R7", remoteRel, "remoteDelivery", "connectionForDomain"); r != nil {
+		ri := r.Info
+		getPred := calling("~/" + poolRel + ".P.Get")
+		gets := r.Calls(getPred)
+		msg := ""
+		var pooled types.Object
+		if len(gets) != 1 {
+			msg = "undecided: expected one pool.Get"
+		} else if as, ok := gets[0].Node().(*ast.AssignStmt); !ok || len(as.Lhs) != 2 {
+			msg = "undecided: pool.Get result shape"
+		} else {
+			pooled = objOf(ri, as.Lhs[0])
+			uses := func(q Pt) bool {
+				hit := false
+				if q.Node() == nil {
+					return false
+				}
+				inspectNoLit(q.Node(), func(x ast.Node) bool {
+					switch e := x.(type) {
+					case *ast.TypeAssertExpr:
+						if objOf(ri, e.X) == pooled {
+							hit = true
+						}
+					case *ast.CallExpr:
+						if recvObj(ri, e) == pooled {
+							hit = true
+						}
+					}
+					return true
+				})
+				return hit
+			}
+			if path, f := r.F.ReachRefined(gets[0], pooled, true, false, uses, nil); f {
+				msg = "the value the pool returned is asserted / used although it is nil (no pooled connection): the attempt panics: " + r.F.Describe(path)
+			}
+		}
+		c.Hold("R7", "connectionForDomain:pooled-used-only-if-present", r.FI.Decl.Pos(), msg == "", msg)
+
+		// ownership of conn
+		msg = ""
+		var connObj types.Object
+		var defs []Pt
+		var newConnPt Pt
+		hasNew := false
+		for _, pt := range r.F.Points() {
+			as, ok := pt.Node().(*ast.AssignStmt)
+			if !ok {
+				continue
+			}
+			for i, l := range as.Lhs {
+				o := objOf(ri, l)
+				if o == nil {
+					continue
+				}
+				var rhs ast.Expr
+				if len(as.Rhs) == len(as.Lhs) {
+					rhs = as.Rhs[i]
+				} else if len(as.Rhs) == 1 {
+					rhs = as.Rhs[0]
+				}
+				if ta, ok := ast.Unparen(rhs).(*ast.TypeAssertExpr); ok && pooled != nil && objOf(ri, ta.X) == pooled {
+					connObj = o
+					defs = append(defs, pt)
+				}
+				if cc, ok := ast.Unparen(rhs).(*ast.CallExpr); ok && i == 0 && isCall(ri, cc, "~/"+remoteRel+".remoteDelivery.newConn") {
+					connObj = o
+					newConnPt, hasNew = pt, true
+				}
+			}
+		}
+		if connObj == nil || len(defs) == 0 || !hasNew {
+			msg = "undecided: the connection variable (from the pool / from newConn) was not found"
+		} else {
+			owned := func(q Pt) bool {
+				n := q.Node()
+				if n == nil {
+					return false
+				}
+				for _, call := range callsAt(n) {
+					if methodName(call) == "Close" && recvObj(ri, call) == connObj {
+						return true
+					}
+				}
+				return nodeAssigns(n, func(l, rhs ast.Expr) bool {
+					ix, ok := ast.Unparen(l).(*ast.IndexExpr)
+					return ok && rhs != nil && objOf(ri, rhs) == connObj && fieldOf(ri, ix.X) != nil
+				})
+			}
+			for _, d := range defs {
+				if path, f := r.F.Reach(Query{From: []Pt{d}, Target: r.F.IsNormalExit, Avoid: owned}); f {
+					msg = "a connection taken from the pool can be dropped (neither recorded for Close nor closed): " + r.F.Describe(path)
+				}
+			}
+			call := r.CallAt(newConnPt, calling("~/"+remoteRel+".remoteDelivery.newConn"))
+			if found, w, decided := r.OnErr(newConnPt, call, true, r.F.IsNormalExit, owned); !decided {
+				msg = "the error of newConn is dropped"
+			} else if found {
+				msg = "a newly opened connection can be dropped (neither recorded for Close nor closed): " + w
+			}
+		}
+		c.Hold("R7", "connectionForDomain:connection-owned", r.FI.Decl.Pos(), msg == "", msg)
+	}
 }
